@@ -195,7 +195,7 @@ func ruleGLB1(p *Program) *RuleResult {
 		}
 	}
 	r.floor("functions", 250)
-	r.floor("global_ref_loads", 3)
+	r.floor("global_ref_loads", 2)
 	return r
 }
 
@@ -327,7 +327,7 @@ func ruleGLB2(p *Program) *RuleResult {
 			}
 		}
 	}
-	r.floor("map_updates", 4)
+	r.floor("map_updates", 2)
 	return r
 }
 
@@ -481,7 +481,7 @@ func ruleGLB3(p *Program) *RuleResult {
 		r.count("clock_readers", 1)
 	}
 	r.floor("functions", 250)
-	r.floor("clock_readers", 3)
+	r.floor("clock_readers", 1)
 	return r
 }
 
